@@ -572,6 +572,52 @@ func bd4Window(p *core.Prog, rep *core.Report) {
 					okw = true
 				}
 				rep.Check(okw, "BD4", "decode-window:"+core.FuncKey(fn), "the decoder sees only the bytes just read", p.InstrPos(in), "decoder argument is not bounded by the size of the read: bytes of a previously read block can be decoded (and pass their CRC) beyond a truncated end", true)
+				// BD5: the window is not inverted: low < high is established by a dominating in-loop guard (a position past
+				// the end of a short last block - only possible with damaged / truncated files reached through a hint -
+				// must be an error, not a slice-bounds panic)
+				okl := false
+				if sl, ok := c.Common().Args[0].(*ssa.Slice); ok && sl.High != nil {
+					if sl.Low == nil {
+						okl = true
+					}
+					for _, gb := range fn.Blocks {
+						iff, isIf := gb.Instrs[len(gb.Instrs)-1].(*ssa.If)
+						if !isIf || sl.Low == nil {
+							continue
+						}
+						bo, isBo := iff.Cond.(*ssa.BinOp)
+						if !isBo {
+							continue
+						}
+						var okTaken, match bool
+						switch {
+						case sameOrigin(bo.X, sl.Low) && (bo.Y == sl.High || sameOrigin(bo.Y, sl.High)): // low op high
+							match = true
+							switch bo.Op {
+							case token.GEQ, token.GTR:
+								okTaken = false
+							case token.LSS, token.LEQ:
+								okTaken = true
+							default:
+								match = false
+							}
+						case sameOrigin(bo.Y, sl.Low) && (bo.X == sl.High || sameOrigin(bo.X, sl.High)): // high op low
+							match = true
+							switch bo.Op {
+							case token.GTR, token.GEQ:
+								okTaken = true
+							case token.LSS, token.LEQ:
+								okTaken = false
+							default:
+								match = false
+							}
+						}
+						if match && edgeDominates(iff, okTaken, b) && (!blockInLoop(b) || sameSCC(gb, b)) {
+							okl = true
+						}
+					}
+				}
+				rep.Check(okl, "BD4", "decode-window-not-inverted:"+core.FuncKey(fn), "the start of the decode window lies before its end", p.InstrPos(in), "no dominating in-loop guard establishes offset < size before block[offset:size]: a position beyond a short last block panics with slice bounds out of range", true)
 			}
 		}
 	}
